@@ -41,6 +41,22 @@ def rnd(v, fn):
     return core.canon_value(v)
 
 
+def differ(xs, ys):
+    """do two lists of rounded values differ?  (single-precision arrays: compared with a relative tolerance,
+    because rounding to a fixed number of digits flips at the boundaries)"""
+    if PREC[0] >= 11:
+        return xs != ys
+    if len(xs) != len(ys):
+        return True
+    for x, y in zip(xs, ys):
+        if x == y:
+            continue
+        if x[0] == "r" and y[0] == "r" and math.isclose(x[1], y[1], rel_tol=1e-4, abs_tol=1e-6):
+            continue
+        return True
+    return False
+
+
 def nan_pattern(rng, shape, how):
     n = int(np.prod(shape)) if shape else 1
     if how == "none" or n == 0:
@@ -281,7 +297,7 @@ class C08(Prop):
                     bad.append("dims")
                 if [(x["name"], x["labels"]) for x in got["axes"]] != [(x["name"], x["labels"]) for x in laxes]:
                     bad.append("axes")
-                if gvals != lvals:
+                if differ(gvals, lvals):
                     bad.append("values")
                 if not got["scalar"] and "scalar" not in lo and got["attrs"] != lo["attrs"]:
                     bad.append("attrs")
@@ -294,7 +310,7 @@ class C08(Prop):
             got = io["ok"]
             want, keep = self.expected_numpy(c, a)
             gvals = [rnd(v, c["fn"]) for v in got["raw"]] if got["raw"] is not None else got["values"]
-            if gvals != [rnd(v, c["fn"]) for v in want]:
+            if differ(gvals, [rnd(v, c["fn"]) for v in want]):
                 prop_bad.append("values:numpy")
             if got["dims"] != keep:
                 prop_bad.append("dims:remaining")
